@@ -174,6 +174,13 @@ def op_link(v, uni, ctx):
         ctx.mark()          # the operation under test is clean(); the resolved link is part of the pre-state
         sec.clean()
     else:
+        if v.bool("resolved"):
+            # the Section already has a resolved link (pre-state) and is now pointed somewhere else
+            first = v.pick("first", uni.secs)
+            v.assume(first is not sec and first._parent is not None and sec._parent is not None)
+            v.assume(not _descends_from(first, sec) and not _descends_from(sec, first))
+            sec.link = first.get_path()
+            ctx.mark()
         k = v.choice("tgt", 1 + len(uni.secs))
         path = "/nowhere" if k == 0 else uni.secs[k - 1].get_path()
         sec.link = path
